@@ -155,7 +155,9 @@ func parseExprWithPrecedence(lex *lexer.PeekingLexer, minPrec int) (Expression, 
 			}
 		case tok.Type == TokenTypeOpenBracket:
 			if minPrec >= 5 {
-				break
+				// the subscript applies to the enclosing expression; a bare `break` here only left
+				// the switch and the loop spun forever on the unconsumed '['
+				return lhs, nil
 			}
 			lhs, err = parseSubscript(lex, lhs)
 			if err != nil {
